@@ -41,6 +41,10 @@ def cells(tier):
             out.append(cmk(PID, kinds, strict, 'string', T=T, tag='reports-through-a-collection'))
         out.append(cmk(PID, kinds, False, 'file', T=T, mids=['3', '20'], rc_mid='10', perm=[2, 0, 1], tag='reports-through-a-collection'))
     out.append(cmk(PID, ('roStoryDelete', 'roItemDelete', 'roStoryDelete'), False, 's3', T=T, tag='reports-through-a-collection'))
+    # several messages after the roDelete: each of them is reported on its own
+    for strict in (True, False):
+        out.append(cmk(PID, ('roDelete', 'roStoryDelete', 'roItemDelete'), strict, 'string', T=T, mids=['3', '20', '30'], tag='reports-through-a-collection'))
+    out.append(cmk(PID, ('roDelete', 'roStoryMove', 'roStoryAppend', 'roReadyToAir'), False, 'file', T=T, mids=['3', '20', '30', '40'], perm=[4, 2, 0, 3, 1], tag='reports-through-a-collection'))
     # fully applied messages of the remaining types emit no mosromgr warning: roReplace (also one that repeats a story
     # ID), roMetadataReplace, roDelete, roReadyToAir
     from .p_c04 import rcell, mcell
